@@ -1,3 +1,36 @@
+/-
+  C14 — Results never depend on call history (hints are invisible).
+  The hidden state of a zone is one remembered table index per direction; the theorems hold for
+  EVERY natural number as hint value, reachable or not — which also covers relaxed-atomic reads of
+  a hint written by another thread (C13).
+  (The cache half of C14 — loading a name again returns the first zone without consulting the data
+  source — is `Cctz.C13`/`Cctz.C20`'s loader state machine: `cached_load_statement` there.)
+-/
 import Cctz.Model.Tz
+import Cctz.Spec.TableSem
+import Cctz.Proofs.Hints
+
 namespace Cctz.C14
+open Cctz Cctz.Tz Cctz.Spec
+
+/-- lookup(t) returns the same answer and raises the same flags whatever the hint -/
+def breakTime_hint_irrelevant_statement : Prop :=
+  ∀ (z : Zone) (h : Nat) (t : Int), TableWF z →
+    (breakTime z h t).val.1 = (breakTime z 0 t).val.1 ∧ (breakTime z h t).flags = (breakTime z 0 t).flags
+
+/-- lookup(cs) returns the same answer and raises the same flags whatever the hint -/
+def makeTime_hint_irrelevant_statement : Prop :=
+  ∀ (z : Zone) (h : Nat) (cs : Fields), TableWF z → CivilSorted z →
+    (makeTime z h cs).val.1 = (makeTime z 0 cs).val.1 ∧ (makeTime z h cs).flags = (makeTime z 0 cs).flags
+
+/-- hence convert too -/
+def convert_hint_irrelevant_statement : Prop :=
+  ∀ (z : Zone) (h : Nat) (cs : Fields), TableWF z → CivilSorted z →
+    (convert z h cs).val.1 = (convert z 0 cs).val.1
+
+/-- any sequence of calls, from any hidden state, returns the sequence of stateless answers -/
+def history_irrelevant_statement : Prop :=
+  ∀ (z : Zone) (h : Nat × Nat) (calls : List Call), TableWF z → CivilSorted z →
+    runCalls z h calls = calls.map (stateless z)
+
 end Cctz.C14
